@@ -55,8 +55,9 @@ CHECK_DEADLOCK FALSE
 ALL_PROTOS = ["G", "GI", "GP", "GD", "H", "W", "GEM", "SP"]
 TIERS = {
     "quick": dict(full_len=2, core_len=3, univ_full="UFullQ", univ_core="UCoreQ", fixed=["G", "GI"],
-                  rotate=["GP", "GD", "H", "W", "GEM", "SP"], extra_mc=None, names=["ascii"], name_stride=0),
-    "thorough": dict(full_len=3, core_len=4, univ_full="UFullQ", univ_core="UCoreT", fixed=ALL_PROTOS, rotate=[],
+                  rotate=["GP", "GD", "H", "W", "GEM", "SP"], stride=1, extra_mc=None, names=["ascii"], name_stride=0),
+    "thorough": dict(full_len=3, core_len=4, univ_full="UFullQ", univ_core="UCoreT", fixed=["G", "GI"],
+                     rotate=["GP", "GD", "H", "W", "GEM", "SP"], stride=3,
                      extra_mc=dict(full_len=1, core_len=5, univ_full="UFullQ", univ_core="UCoreT5"),
                      names=["ascii", "utf8", "cp437"], name_stride=7),
 }
@@ -159,7 +160,8 @@ class Site:
     def __init__(self):
         from harness import world
         self.world = world
-        self.scratch = tlc.new_scratch("c16")
+        import tempfile
+        self.scratch = tempfile.mkdtemp(prefix="w-", dir=_BASE) if _BASE else tlc.new_scratch("c16")
         root = os.path.join(self.scratch, "r")
         os.makedirs(root)
         ov = {("handlers.dir.DirHandler", "cachetime"): "0"}
@@ -298,7 +300,7 @@ class Site:
             r = w.request(data, tls=tls)
         finally:
             a["on"] = False
-        return alpha(proto, r, names), {"raw": r.out[:400].decode("latin-1"), "log": r.log[-2:], "escaped": r.escaped,
+        return alpha(proto, r, names), {"raw": r.out[:200].decode("latin-1"), "log": r.log[-2:], "escaped": r.escaped,
                                         "audit": list(a["seen"])}
 
     def close(self):
@@ -392,8 +394,10 @@ def alpha(proto, r, names):
         elif m.group(1) == ok:
             rec["mime"] = m.group(2).decode("latin-1")
             body = rest
-        elif m.group(1) == nf:
-            rec["st"], rec["msg"] = "notfound", m.group(2).decode("latin-1")
+        elif m.group(1) == nf or (proto == "SP" and m.group(1) == b"5"):
+            # Spartan answers 4 (FileNotFound) or 5 (IOError while opening): both are the error answer; the
+            # digit is kept in the message text (compared at design level only)
+            rec["st"], rec["msg"] = "notfound", (m.group(1) + b" " + m.group(2)).decode("latin-1") if proto == "SP" else m.group(2).decode("latin-1")
         else:
             rec["st"] = "other"
     if rec["st"] == "ok" and out:
@@ -429,6 +433,7 @@ def alpha(proto, r, names):
 
 # ---- worker ------------------------------------------------------------------------------------
 _SITE = None
+_BASE = None          # scratch directory of this run (created and removed by the parent process)
 
 
 def _init_worker():
@@ -552,13 +557,21 @@ def main(chk, replay=None):
                      c.get("names", "ascii"), c.get("loc", "")))
     else:
         for n, (ms, sels, prune, _passes) in enumerate(cases):
+            if len(ms) >= 3 and n % t["stride"] != chk.seed % t["stride"]:
+                continue                     # model-checked; replayed only as a sample in this tier
             protos = t["fixed"] + ([t["rotate"][n % len(t["rotate"])]] if t["rotate"] else [])
             jobs.append(("c%05d" % n, ms, sels, prune, protos, "ascii", "y.zip" if n % 5 == 2 else ""))
             for k, nm in enumerate(t["names"][1:]):
                 if t["name_stride"] and n % t["name_stride"] == k:
                     jobs.append(("c%05d-%s" % (n, nm), ms, sels, prune, t["fixed"][:3], nm, ""))
     # 2./3. replay into the real server, record traces
-    results = cachelib.pool_map(_run_case, jobs, _init_worker)
+    global _BASE
+    _BASE = tlc.new_scratch("c16")
+    try:
+        results = cachelib.pool_map(_run_case, jobs, _init_worker)
+    finally:
+        shutil.rmtree(_BASE, ignore_errors=True)
+        _BASE = None
     traces = [tr for trs, _h in results for tr in trs]
     hook_calls = sum(h for _trs, h in results)
     if hook_calls == 0:
@@ -590,10 +603,11 @@ def main(chk, replay=None):
         "traces_validated_against_impl": tv["accepted"], "traces_rejected": len(tv["rejected"]),
         "evaluations": len(reqs), "distinct_nontrivial": nontrivial,
         "rule": "cases = every final state of MC_C16 (member lists in every order: length <= %d over the full universe, <= %d "
-                "over the order-sensitive core%s); one trace per (archive, selector of the model) with one event per protocol x "
+                "over the order-sensitive core%s%s); one trace per (archive, selector of the model) with one event per protocol x "
                 "{index built by the request, saved index}; non-trivial = (archive, selector) pairs for which the twin on disk "
                 "answered with a document or a listing" % (t["full_len"], t["core_len"],
-                                                           "; plus a 1/11 sample of the separately model-checked longer lists" if t["extra_mc"] else ""),
+                                                           "; plus a 1/11 sample of the separately model-checked longer lists" if t["extra_mc"] else "",
+                                                           "; lists of 3 and more members replayed as a 1/%d sample" % t["stride"] if t["stride"] > 1 else ""),
         "samples": [{"members": tr["case"]["members"], "sel": tr["case"]["sel"], "events": tr["events"][:1]} for tr in sample],
         "checker_cmd": res["cmd"] + extra_cmd + " ; " + tv["cmd"],
         "archives": len(jobs), "requests_to_real_server": 3 * len(reqs), "audit_hook_calls": hook_calls,
